@@ -511,7 +511,7 @@ void fff_array_div(fff_array* aRes, const fff_array* aSrc)
 fff_array_iterator fff_array_iterator_init_skip_axis(const fff_array* im, int axis)
 {
   fff_array_iterator iter;
-  size_t pY, pZ, pT;
+  ptrdiff_t pY, pZ, pT;
 
   iter.idx = 0;
   iter.size = im->dimX*im->dimY*im->dimZ*im->dimT;
@@ -544,13 +544,13 @@ fff_array_iterator fff_array_iterator_init_skip_axis(const fff_array* im, int ax
     iter.size /= im->dimX;
 
   /* Increments */
-  pY = iter.ddimY * im->byte_offsetY;
-  pZ = iter.ddimZ * im->byte_offsetZ;
-  pT = iter.ddimT * im->byte_offsetT;
-  iter.incT = im->byte_offsetT;
-  iter.incZ = im->byte_offsetZ - pT;
-  iter.incY = im->byte_offsetY - pZ - pT;
-  iter.incX = im->byte_offsetX - pY - pZ - pT;
+  pY = (ptrdiff_t)(iter.ddimY * im->byte_offsetY);
+  pZ = (ptrdiff_t)(iter.ddimZ * im->byte_offsetZ);
+  pT = (ptrdiff_t)(iter.ddimT * im->byte_offsetT);
+  iter.incT = (ptrdiff_t)im->byte_offsetT;
+  iter.incZ = (ptrdiff_t)im->byte_offsetZ - pT;
+  iter.incY = (ptrdiff_t)im->byte_offsetY - pZ - pT;
+  iter.incX = (ptrdiff_t)im->byte_offsetX - pY - pZ - pT;
 
   /* Update function */
   switch(im->ndims) {
